@@ -4,6 +4,8 @@ import (
 	"fmt"
 	"go/ast"
 	"go/types"
+	"golang.org/x/tools/go/cfg"
+	"strings"
 )
 
 func init() {
@@ -140,17 +142,55 @@ func checkC19(p *Prog, r *Report) {
 				if c2 == cc {
 					continue
 				}
-				put := false
-				for _, s2 := range c2.Body {
-					ast.Inspect(s2, func(y ast.Node) bool {
+				// every path from the arm to the return passes Put(buf) (in the arm, or in a tail the arms share)
+				sc := p.CFG(send)
+				isPut := func(nd ast.Node, _ Point) bool {
+					hit := false
+					inspectShallow(nd, func(y ast.Node) bool {
 						if call, ok := y.(*ast.CallExpr); ok && p.Callee(call) == p.Method("bufferPool", "Put") && len(call.Args) == 1 {
 							if id, ok := call.Args[0].(*ast.Ident); ok && p.Info.Uses[id] == bufV {
-								put = true
+								hit = true
 							}
 						}
 						return true
 					})
+					return hit
 				}
+				var armBlk *cfg.Block
+				for _, b := range sc.live {
+					if b.Stmt == ast.Stmt(c2) && strings.HasSuffix(b.Kind.String(), "Body") {
+						armBlk = b // (the default arm's body has its own block kind)
+					}
+				}
+				put := false
+				var from *Point
+				if armBlk != nil {
+					from = &Point{armBlk, 0}
+				} else if c2.Comm == nil {
+					// go/cfg emits the default arm's statements into the block after the last communication clause
+					if len(c2.Body) > 0 {
+						if q, okQ := sc.PointOf(c2.Body[0]); okQ {
+							from = &q
+						}
+					} else {
+						var lastComm ast.Stmt
+						for _, st2 := range sel.Body.List {
+							if st2.(*ast.CommClause).Comm != nil {
+								lastComm = st2
+							}
+						}
+						for _, b := range sc.live {
+							if b.Kind == cfg.KindSelectAfterCase && b.Stmt == lastComm {
+								from = &Point{b, 0}
+							}
+						}
+					}
+				}
+				if from != nil {
+					res := sc.FindPath(PathQuery{From: *from, ExitIsTarget: true, IsBarrier: isPut})
+					put = !res.Found
+				}
+
 				if !put {
 					okPut = false
 				}
